@@ -147,7 +147,9 @@ def estimate_gradient(kind: str, y: np.ndarray, g: np.ndarray, w: np.ndarray):
     corr = npos / (npos - 1)
     mean = float(np.dot(y, w))
     sd = float(np.sqrt(corr * np.dot((y - mean) ** 2, w)))
-    if sd < 1e-9:
+    if sd < 1e-7:
+        # the derivative of a standard deviation is undefined at zero; the library reports a zero gradient when the
+        # standard deviation is within numpy's default closeness of zero (1e-8): no comparison in that neighbourhood
         return "degenerate"
     return (corr / sd) * ((w * (y - mean)) @ g)
 
